@@ -193,7 +193,9 @@ func (d *Decoder) stepHelper_acceptKV(t string, majorByte byte, tokenSlot *Token
 		d.pushPhase(d.step_acceptArrValueOrBreak)
 		return false, nil
 	case 'n':
-		d.r.Readnzc(3) // FIXME must check these equal "ull"!
+		if err := d.expectLiteral("ull"); err != nil {
+			return true, err
+		}
 		tokenSlot.Type = TNull
 		return true, nil
 	case '"':
@@ -201,12 +203,16 @@ func (d *Decoder) stepHelper_acceptKV(t string, majorByte byte, tokenSlot *Token
 		tokenSlot.Str, err = d.decodeString()
 		return true, err
 	case 'f':
-		d.r.Readnzc(4) // FIXME must check these equal "alse"!
+		if err := d.expectLiteral("alse"); err != nil {
+			return true, err
+		}
 		tokenSlot.Type = TBool
 		tokenSlot.Bool = false
 		return true, nil
 	case 't':
-		d.r.Readnzc(3) // FIXME must check these equal "rue"!
+		if err := d.expectLiteral("rue"); err != nil {
+			return true, err
+		}
 		tokenSlot.Type = TBool
 		tokenSlot.Bool = true
 		return true, nil
@@ -220,6 +226,19 @@ func (d *Decoder) stepHelper_acceptKV(t string, majorByte byte, tokenSlot *Token
 	default:
 		return true, fmt.Errorf("invalid char while expecting start of %s: %s", t, byteToString(majorByte))
 	}
+}
+
+// expectLiteral consumes the remainder of a literal (its first byte has been read
+// already) and checks the spelling; read errors are returned.
+func (d *Decoder) expectLiteral(rest string) error {
+	bs, err := d.r.Readnzc(len(rest))
+	if err != nil {
+		return err
+	}
+	if string(bs) != rest {
+		return fmt.Errorf("invalid literal: expected %q, got %q", rest, string(bs))
+	}
+	return nil
 }
 
 var byteToStringMap = map[byte]string{
